@@ -73,6 +73,14 @@ def gen_cases(tier, seed):
             rho = 0.0           # exactly vertically aligned endpoints
         a = [float(rng.uniform(-1e3, 1e3)), float(rng.uniform(-1e3, 1e3)), float(rng.uniform(zlo + 1, -1))]
         b = [a[0] + rho * np.cos(ph), a[1] + rho * np.sin(ph), float(rng.uniform(zlo + 1, -1))]
+        if rng.random() < 0.1:
+            # nearly coincident endpoints (0.1 micrometre ... 5 mm apart, i.e. below 1e-5 of the coordinates themselves), any orientation
+            u_ = rng.normal(size=3)
+            u_ /= np.linalg.norm(u_)
+            sep_ = float(10 ** rng.uniform(-7, -2.3))
+            b = [a[0] + sep_ * u_[0], a[1] + sep_ * u_[1], float(min(-1e-3, max(zlo + 1e-3, a[2] + sep_ * u_[2])))]
+            c["cls"] = kind + ":nearly-coincident"
+            c["separation"] = sep_
         if c.get("on_boundary"):
             # an endpoint exactly on an inner boundary between two layers
             zb_ = float(c["edges"][1 + int(rng.integers(0, len(c["edges"]) - 2))])
@@ -329,13 +337,19 @@ def run_split(case, v):
     for i, q in enumerate(lay):
         if i not in used and not any(abs(float(q.path_length) - Lp) <= slack for Lp, slack in loose):
             fr = np.abs(np.array(q.fresnel, dtype=complex))
-            v.close("extra layered solutions (reflections off an artificial boundary) carry zero amplitude", float(np.max(fr)), 1e-9, legs=len(q.paths), L=float(q.path_length), **geo)
+            cbq = 0.0
+            if exp:
+                # measured for this very solution: the absolute error bound of the closed-form integrals at its launch angle and depth
+                eq_ = np.asarray(q.emitted_direction, float)
+                cbq = cancellation_bound(n0, k_, a_, float(full.index(float(a[2])) * np.hypot(eq_[0], eq_[1])), min(a[2], b[2]), 0.99999) * (1 + len(q.paths))
+            v.close("extra layered solutions (reflections off an artificial boundary) carry zero amplitude", float(np.max(fr)), 1e-9, legs=len(q.paths), L=float(q.path_length),
+                    cancellation_bound_m=float(cbq), **geo)
     return {"geometry": geo, "unsplit_solutions": len(ref), "layered_solutions": len(lay)}, len(ref) > 0
 
 
 def run_case(case):
     v = V()
-    fn = {"uniform": run_uniform, "stack": run_stack, "split-exp": run_split, "split-uniform": run_split}[case["cls"]]
+    fn = {"uniform": run_uniform, "stack": run_stack, "split-exp": run_split, "split-uniform": run_split}[case["cls"].split(":")[0]]
     sample, nontrivial = fn(case, v)
     return v.result(decided=True, nontrivial=nontrivial, sample=sample)
 
@@ -351,6 +365,10 @@ def kf_cancellation(case, viol):
         return rel > 1e-3 or (rel > 0 and d.get("deviation", 1e9) <= d["tolerance"] + 3 * rel)
     if viol["clause"] == "every solution of the unsplit medium has a layered counterpart":
         return d.get("cancellation_bound_m", 0.0) / max(d.get("L", 1.0), 1e-9) > 1e-3
+    if viol["clause"].startswith("extra layered solutions"):
+        # a "solution" whose closed-form integrals carry an error bound above its whole path length is a root of round-off noise
+        # (endpoints a few micrometres apart deep in a gradient layer: r(theta) is noise of 1e-6 ... 1e-2 m around rho ~ 1e-7 m)
+        return d.get("cancellation_bound_m", 0.0) > max(d.get("L", 1.0), 1e-300)
     if not viol["clause"].startswith("split medium") or "deviation" not in d:
         return False
     rel = d.get("cancellation_bound_m", 0.0) / max(d.get("L", 1.0), 1e-9)
@@ -368,7 +386,7 @@ def fx_layered_reflection_start_angle(case, viol):
 
 
 def fx_uniform_reflection_points(case, viol):
-    return case["cls"] == "uniform"
+    return case["cls"].split(":")[0] == "uniform"
 
 
 def kf_layered_angle_scan(case, viol):
